@@ -340,3 +340,297 @@ Proof.
   - split; [intros _; exists k; auto|intros _; exact NG].
 Qed.
 End Grpc2.
+
+(* ====================================================================== *)
+(* E. referenceServerChecks as the concatenation of its parts             *)
+(* ====================================================================== *)
+Definition rep_part (c : calls) (name : bytes) : fb :=
+  if 0 <? count_of c name then [KRepeat (count_of c name + 1)] else [].
+Definition ver_part (r : request) : fb :=
+  match enum_value (lit "x-expect-http-version") (x_version r) c12_http_versions with
+  | (Some v, f) => f ++ check_http_version v r
+  | (None, f) => f
+  end.
+Definition pro_part (fq : Z -> Z -> Z) (r : request) : option Z * fb * request :=
+  match enum_value (lit "x-expect-protocol") (x_protocol r) c12_protocols with
+  | (Some p, f) => let '(t, ft, r') := extract_timeout fq p r in (t, f ++ check_protocol p r ++ ft, r')
+  | (None, f) => (None, f, r)
+  end.
+Definition cod_part (r : request) : fb :=
+  match enum_value (lit "x-expect-codec") (x_codec r) c12_codecs with
+  | (Some v, f) => f ++ check_codec v r
+  | (None, f) => f
+  end.
+Definition cmp_part (r : request) : fb :=
+  match enum_value (lit "x-expect-compression") (x_compression r) c12_compressions with
+  | (Some v, f) => f ++ check_compression v r
+  | (None, f) => f
+  end.
+Definition trl_part (r : request) : fb :=
+  if 0 <? trailer_keys r then [KTrailers (trailer_keys r)] else [].
+
+Definition served (fq : Z -> Z -> Z) (c : calls) (name : bytes) (r : request) : calls * outcome :=
+  let '(t, fp, r') := pro_part fq r in
+  (bump c name,
+   Served name (rep_part c name ++ ver_part r ++ fp ++ cod_part r' ++ cmp_part r' ++ check_tls r' ++
+                check_method r' ++ trl_part r') t r').
+
+Lemma checks_eq fq c r :
+  checks fq c r = match name_of r with [] => (c, Rejected) | _ => served fq c (name_of r) r end.
+Proof.
+  unfold checks, served, pro_part, name_of, first.
+  destruct (hd [] (x_name r)) as [|n nm]; [reflexivity|].
+  unfold rep_part, ver_part, cod_part, cmp_part, trl_part.
+  destruct (enum_value _ (x_protocol r) c12_protocols) as [[p|] f]; [|reflexivity].
+  destruct (extract_timeout fq p r) as [[t ft] r']. reflexivity.
+Qed.
+
+(* ---------- where each kind of line can come from ---------- *)
+Definition plain (k : kind) : bool :=
+  match k with
+  | KRepeat _ | KTrailers _ => false
+  | _ => negb (is_timeout_kind k)
+  end.
+Definition all_plain (f : fb) : Prop := forallb plain f = true.
+
+Lemma plain_nil : all_plain []. Proof. reflexivity. Qed.
+Lemma plain_app a b : all_plain a -> all_plain b -> all_plain (a ++ b).
+Proof. unfold all_plain. intros A B. rewrite forallb_app, A, B. reflexivity. Qed.
+Lemma plain_if (c : bool) a b : all_plain a -> all_plain b -> all_plain (if c then a else b).
+Proof. destruct c; auto. Qed.
+Lemma plain_dup_header n v : all_plain (dup_header n v).
+Proof. unfold dup_header. destruct (1 <? zlen v); reflexivity. Qed.
+Lemma plain_dup_query n v : all_plain (dup_query n v).
+Proof. unfold dup_query. destruct (1 <? zlen v); reflexivity. Qed.
+
+Ltac plain_tac :=
+  repeat first
+    [ apply plain_nil
+    | apply plain_dup_header
+    | apply plain_dup_query
+    | apply plain_app
+    | apply plain_if
+    | reflexivity
+    | match goal with
+      | |- all_plain (match ?x with _ => _ end) => destruct x
+      | |- all_plain (let '(_, _) := ?x in _) => destruct x
+      end ].
+
+Lemma plain_enum n vals valid : all_plain (snd (enum_value n vals valid)).
+Proof.
+  unfold enum_value. destruct (parse_int 32 (first vals)) as [i|]; cbn [snd].
+  - destruct (mem_Z i valid); cbn [snd]; plain_tac.
+  - plain_tac.
+Qed.
+Lemma plain_version e r : all_plain (check_http_version e r).
+Proof. unfold check_http_version. plain_tac. Qed.
+Lemma plain_protocol e r : all_plain (check_protocol e r).
+Proof. unfold check_protocol. plain_tac. Qed.
+Lemma plain_codec e r : all_plain (check_codec e r).
+Proof. unfold check_codec. plain_tac. Qed.
+Lemma plain_compression e r : all_plain (check_compression e r).
+Proof. unfold check_compression. plain_tac. Qed.
+Lemma plain_tls r : all_plain (check_tls r).
+Proof. unfold check_tls. plain_tac. Qed.
+Lemma plain_method r : all_plain (check_method r).
+Proof. unfold check_method. plain_tac. Qed.
+
+Lemma plain_enum_part n vals valid (k : Z -> fb) :
+  (forall v, all_plain (k v)) ->
+  all_plain (match enum_value n vals valid with (Some v, f) => f ++ k v | (None, f) => f end).
+Proof.
+  intros H. pose proof (plain_enum n vals valid) as P.
+  destruct (enum_value n vals valid) as [[v|] f]; cbn [snd] in P; [apply plain_app; auto|exact P].
+Qed.
+
+Lemma plain_ver_part r : all_plain (ver_part r).
+Proof. unfold ver_part. apply plain_enum_part. intros; apply plain_version. Qed.
+Lemma plain_cod_part r : all_plain (cod_part r).
+Proof. unfold cod_part. apply plain_enum_part. intros; apply plain_codec. Qed.
+Lemma plain_cmp_part r : all_plain (cmp_part r).
+Proof. unfold cmp_part. apply plain_enum_part. intros; apply plain_compression. Qed.
+
+Lemma plain_in f k : all_plain f -> In k f -> plain k = true.
+Proof. unfold all_plain. rewrite forallb_forall. auto. Qed.
+
+(* ---------- the protocol part: plain lines, then at most one line about the timeout ---------- *)
+Definition timeout_line (f : fb) : Prop := f = [] \/ exists k, is_timeout_kind k = true /\ f = [k].
+
+Lemma extract_connect_line s : timeout_line (snd (extract_connect s)).
+Proof.
+  unfold extract_connect, timeout_line.
+  repeat match goal with |- context [match ?x with _ => _ end] => destruct x end;
+    cbn [snd]; try (left; reflexivity); (right; eexists; split; [|reflexivity]; reflexivity).
+Qed.
+
+Lemma extract_grpc_line fq s : timeout_line (snd (extract_grpc fq s)).
+Proof.
+  unfold extract_grpc, timeout_line.
+  repeat match goal with |- context [match ?x with _ => _ end] => destruct x end;
+    cbn [snd]; try (left; reflexivity); (right; eexists; split; [|reflexivity]; reflexivity).
+Qed.
+
+Definition same_but_timeout (r r' : request) : Prop :=
+  r' = r \/ r' = set_connect_timeout r [] \/ r' = set_grpc_timeout r [].
+
+Lemma extract_timeout_shape fq p r :
+  exists t fa ft r', extract_timeout fq p r = (t, fa ++ ft, r') /\ all_plain fa /\ timeout_line ft /\
+                     same_but_timeout r r'.
+Proof.
+  unfold extract_timeout, same_but_timeout.
+  destruct (p =? 1).
+  - destruct (present (connect_timeout r)).
+    + pose proof (extract_connect_line (first (connect_timeout r))) as TL.
+      destruct (extract_connect (first (connect_timeout r))) as [t f]. cbn [snd] in TL.
+      exists t, (dup_header (lit "connect-timeout-ms") (connect_timeout r)), f, (set_connect_timeout r []).
+      repeat split; auto. apply plain_dup_header.
+    + exists None, [], [], r. repeat split; auto. left; reflexivity.
+  - destruct ((p =? 2) || (p =? 3)).
+    + destruct (present (grpc_timeout r)).
+      * pose proof (extract_grpc_line fq (first (grpc_timeout r))) as TL.
+        destruct (extract_grpc fq (first (grpc_timeout r))) as [t f]. cbn [snd] in TL.
+        exists t, (dup_header (lit "grpc-timeout") (grpc_timeout r)), f, (set_grpc_timeout r []).
+        repeat split; auto. apply plain_dup_header.
+      * exists None, [], [], r. repeat split; auto. left; reflexivity.
+    + exists None, [], [], r. repeat split; auto. left; reflexivity.
+Qed.
+
+Lemma pro_part_shape fq r :
+  exists t fa ft r', pro_part fq r = (t, fa ++ ft, r') /\ all_plain fa /\ timeout_line ft /\
+                     same_but_timeout r r'.
+Proof.
+  unfold pro_part.
+  pose proof (plain_enum (lit "x-expect-protocol") (x_protocol r) c12_protocols) as PE.
+  destruct (enum_value _ (x_protocol r) c12_protocols) as [[p|] f]; cbn [snd] in PE.
+  - destruct (extract_timeout_shape fq p r) as (t & fa & ft & r' & E & PA & TL & SB). rewrite E.
+    exists t, (f ++ check_protocol p r ++ fa), ft, r'. repeat split; auto.
+    + rewrite <- !app_assoc. reflexivity.
+    + apply plain_app; [exact PE|]. apply plain_app; [apply plain_protocol|exact PA].
+  - exists None, f, [], r. rewrite app_nil_r. repeat split; auto. left; reflexivity. left; reflexivity.
+Qed.
+
+Lemma same_trailers r r' : same_but_timeout r r' -> trailer_keys r' = trailer_keys r.
+Proof. intros [->|[->| ->]]; reflexivity. Qed.
+
+(* the whole feedback of a served request: repeat line, lines that are neither about repeats,
+   trailers nor the timeout, at most one timeout line in between, trailers line *)
+Lemma served_shape fq c name r :
+  exists t fa ft fb' r',
+    served fq c name r = (bump c name, Served name (rep_part c name ++ fa ++ ft ++ fb' ++ trl_part r) t r') /\
+    all_plain fa /\ timeout_line ft /\ all_plain fb' /\ same_but_timeout r r'.
+Proof.
+  unfold served.
+  destruct (pro_part_shape fq r) as (t & fa & ft & r' & E & PA & TL & SB). rewrite E.
+  exists t, (ver_part r ++ fa), ft, (cod_part r' ++ cmp_part r' ++ check_tls r' ++ check_method r'), r'.
+  repeat split; auto.
+  - unfold trl_part. rewrite (same_trailers r r' SB). rewrite <- !app_assoc. reflexivity.
+  - apply plain_app; [apply plain_ver_part|exact PA].
+  - apply plain_app; [apply plain_cod_part|]. apply plain_app; [apply plain_cmp_part|].
+    apply plain_app; [apply plain_tls|apply plain_method].
+Qed.
+
+Lemma timeout_line_in f k : timeout_line f -> In k f -> is_timeout_kind k = true.
+Proof. intros [->|(k' & K & ->)] H; [destruct H|]. destruct H as [<-|[]]. exact K. Qed.
+
+(* ====================================================================== *)
+(* F. no test name / repeats / trailers                                   *)
+(* ====================================================================== *)
+Lemma no_name_rejected_proof : forall fq c r,
+  (name_of r = [] -> checks fq c r = (c, Rejected)) /\
+  (name_of r <> [] -> exists f t r', checks fq c r = (bump c (name_of r), Served (name_of r) f t r')).
+Proof.
+  intros fq c r. rewrite checks_eq. split.
+  - intros ->. reflexivity.
+  - intros NE. destruct (name_of r) as [|n nm] eqn:E; [congruence|].
+    destruct (served_shape fq c (n :: nm) r) as (t & fa & ft & fb' & r' & S & _). rewrite S. eauto.
+Qed.
+
+Lemma checks_served fq c r : name_of r <> [] -> checks fq c r = served fq c (name_of r) r.
+Proof. intros NE. rewrite checks_eq. destruct (name_of r); [congruence|reflexivity]. Qed.
+
+Lemma count_bump c n m : count_of (bump c n) m = count_of c m + (if bytes_eqb m n then 1 else 0).
+Proof.
+  induction c as [|[k v] c IH]; cbn [bump count_of].
+  - destruct (bytes_eqb m n); lia.
+  - destruct (bytes_eqb_spec n k) as [->|NK]; cbn [count_of].
+    + destruct (bytes_eqb m k); lia.
+    + destruct (bytes_eqb_spec m k) as [->|MK].
+      * destruct (bytes_eqb_spec k n); [congruence|lia].
+      * exact IH.
+Qed.
+
+Fixpoint calls_after (fq : Z -> Z -> Z) (c : calls) (rs : list request) : calls :=
+  match rs with [] => c | r :: rs' => calls_after fq (fst (checks fq c r)) rs' end.
+
+Lemma run_seq_nth fq : forall history c r later,
+  nth (length history) (run_seq fq c (history ++ r :: later)) Rejected = snd (checks fq (calls_after fq c history) r).
+Proof.
+  induction history as [|h hs IH]; intros c r later; cbn [app run_seq calls_after length nth].
+  - destruct (checks fq c r). reflexivity.
+  - destruct (checks fq c h) as [c' o] eqn:E. cbn [nth fst]. apply IH.
+Qed.
+
+Lemma calls_after_count fq name : name <> [] -> forall history c,
+  count_of (calls_after fq c history) name = count_of c name + seen_before name history.
+Proof.
+  intros NE. induction history as [|h hs IH]; intros c; cbn [calls_after seen_before]; [lia|].
+  rewrite IH. destruct (no_name_rejected_proof fq c h) as [N S].
+  destruct (name_of h) as [|n nm] eqn:E.
+  - rewrite N by reflexivity. cbn [fst]. destruct (bytes_eqb_spec name []); [congruence|lia].
+  - destruct S as (f & t & r' & ->); [discriminate|]. cbn [fst]. rewrite count_bump. lia.
+Qed.
+
+Lemma count_nonneg : forall c name, (forall k v, In (k, v) c -> 0 <= v) -> 0 <= count_of c name.
+Proof.
+  induction c as [|[k v] c IH]; intros name H; cbn [count_of]; [lia|].
+  destruct (bytes_eqb name k).
+  - apply (H k v). left; reflexivity.
+  - apply IH. intros k' v' I. apply (H k' v'). right; exact I.
+Qed.
+
+Lemma repeat_in_checks fq c r m : name_of r <> [] ->
+  In (KRepeat m) (feedback_of (snd (checks fq c r))) <->
+  0 < count_of c (name_of r) /\ m = count_of c (name_of r) + 1.
+Proof.
+  intros NE. rewrite checks_served by exact NE.
+  destruct (served_shape fq c (name_of r) r) as (t & fa & ft & fb' & r' & S & PA & TL & PB & SB).
+  rewrite S. cbn [snd feedback_of]. rewrite !in_app_iff. unfold rep_part, trl_part.
+  split.
+  - intros [H|[H|[H|[H|H]]]].
+    + destruct (Z.ltb_spec 0 (count_of c (name_of r))); [|destruct H].
+      destruct H as [H|[]]. inversion H. split; [assumption|reflexivity].
+    + apply (plain_in _ _ PA) in H. discriminate.
+    + apply (timeout_line_in _ _ TL) in H. discriminate.
+    + apply (plain_in _ _ PB) in H. discriminate.
+    + destruct (0 <? trailer_keys r); [destruct H as [H|[]]; discriminate|destruct H].
+  - intros [P ->]. left. rewrite (proj2 (Z.ltb_lt _ _)) by exact P. left. reflexivity.
+Qed.
+
+Lemma repeat_flagged_proof : forall fq history r later m,
+  name_of r <> [] ->
+  In (KRepeat m) (feedback_of (nth (length history) (run_seq fq [] (history ++ r :: later)) Rejected)) <->
+  0 < seen_before (name_of r) history /\ m = seen_before (name_of r) history + 1.
+Proof.
+  intros fq history r later m NE. rewrite run_seq_nth, repeat_in_checks by exact NE.
+  rewrite calls_after_count by exact NE. cbn [count_of]. rewrite Z.add_0_l. reflexivity.
+Qed.
+
+Lemma trailers_flagged_proof : forall fq c r n,
+  In (KTrailers n) (feedback_of (snd (checks fq c r))) <->
+  name_of r <> [] /\ 0 < trailer_keys r /\ n = trailer_keys r.
+Proof.
+  intros fq c r n. destruct (name_of r) as [|x nm] eqn:E.
+  - destruct (no_name_rejected_proof fq c r) as [N _]. rewrite N by exact E. cbn. split; [tauto|].
+    intros [H _]; congruence.
+  - assert (NE : name_of r <> []) by congruence. rewrite checks_served by exact NE.
+    destruct (served_shape fq c (name_of r) r) as (t & fa & ft & fb' & r' & S & PA & TL & PB & SB).
+    rewrite S. cbn [snd feedback_of]. rewrite !in_app_iff. unfold rep_part, trl_part. split.
+    + intros [H|[H|[H|[H|H]]]].
+      * destruct (0 <? count_of c (name_of r)); [destruct H as [H|[]]; discriminate|destruct H].
+      * apply (plain_in _ _ PA) in H. discriminate.
+      * apply (timeout_line_in _ _ TL) in H. discriminate.
+      * apply (plain_in _ _ PB) in H. discriminate.
+      * destruct (Z.ltb_spec 0 (trailer_keys r)); [|destruct H].
+        destruct H as [H|[]]. inversion H. repeat split; try assumption. discriminate.
+    + intros (_ & P & ->). do 4 right. rewrite (proj2 (Z.ltb_lt _ _)) by exact P. left. reflexivity.
+Qed.
